@@ -178,7 +178,8 @@ ExecImport == /\ InBody /\ Op.k = "import" /\ FirstNeeded = <<>>
 ExecClass == /\ InBody /\ Op.k = "class"
              /\ LET initb == [b \in 1..Len(Op.bases) |-> ExpandName(st, Cur, Op.bases[b], BO)]
                     inito == [b \in 1..Len(Op.bases) |->
-                                 LET r == Get(st, initb[b]) IN IF r # NoObj /\ Cls(st, r) = "Class" THEN r ELSE NoObj]
+                                 \* registered under the expanded name, else reached through the alias a re-export left behind
+                                 LET r == FindObject(st, initb[b], BO) IN IF r # NoObj /\ Cls(st, r) = "Class" THEN r ELSE NoObj]
                     s1 == AddObj(st, "Class", Op.n, Cur, [m |-> Top.mod, pc |-> Top.pc])
                     o  == Len(s1.objs)
                 IN /\ st' = s1
